@@ -188,9 +188,8 @@ class TreeGen:
                 "shape": [list(s) for s in shape] if isinstance(shape, list) else list(shape)}
 
     def scale(self, safe=False):
-        # a non-positive scale is never placed below a Loss (its guard `if not self.has_prox: raise` would make the
-        # observable behaviour depend on whether the flag defect is repaired)
-        if self.nonpos_budget and not safe and self.rng.random() < 0.5:
+        # (a non-positive scale below a Loss clears the Loss's has_prox: its prox then raises)
+        if self.nonpos_budget and self.rng.random() < 0.5:
             self.nonpos_budget -= 1
             return float(self.rng.choice([0.0, -0.5, -1.0, -2.0]))
         return pos_dyadic(self.rng)
